@@ -50,6 +50,57 @@ def use_once(r):
     return out
 
 
+def regular_polygon_boxes(ctx, rnd):
+    """Regular polygons (3..13 vertices, any angle): the box the region reports and the box its mask carries cover the extent of the
+    vertices RegPoly.tla defines (first vertex at angle + 90 deg, one exterior angle apart) and are the smallest that do -
+    BBoxClosed!VCover on the extremes in units of 2^-20 pixel, validated by Trace_BBox."""
+    import json
+    import math
+    import os
+
+    import astropy.units as u
+    from regions import PixCoord, RegularPolygonPixelRegion
+    events, meta = [], []
+    for t in range(240 if ctx.tier == 'quick' else 3000):
+        n = rnd.choice([3, 4, 5, 6, 7, 8, 9, 11, 12, 13])
+        cx, cy = rnd.uniform(-400, 400), rnd.uniform(-400, 400)
+        r = rnd.choice([rnd.uniform(0.6, 3.0), rnd.uniform(3.0, 40.0)])
+        ang = rnd.uniform(-360.0, 360.0)
+        th = [math.radians(ang + 90.0 + 360.0 * k / n) for k in range(n)]
+        xs, ys = [cx + r * math.cos(a) for a in th], [cy + r * math.sin(a) for a in th]
+        flt = [math.floor(v * 2 ** 20) for v in (min(xs), max(xs), min(ys), max(ys))]
+        try:
+            reg = RegularPolygonPixelRegion(PixCoord(cx, cy), n, r, angle=[ang * u.deg, math.radians(ang) * u.rad][t % 2])
+            boxes = [('bounding_box', reg.bounding_box), ('mask-center', reg.to_mask(mode='center').bbox),
+                     ('mask-subpixels', reg.to_mask(mode='subpixels', subpixels=2).bbox)]
+        except Exception as ex:  # noqa
+            ctx.violation(f'C04|bbox|regpoly|{type(ex).__name__}', f'bounding box / mask of a regular polygon raised {ex!r}', {'n': n, 'center': [cx, cy], 'radius': r, 'angle_deg': ang})
+            continue
+        for what, b in boxes:
+            events.append({'op': 'cover', 'flt': flt, 'res': [int(b.ixmin), int(b.ixmax), int(b.iymin), int(b.iymax)]})
+            meta.append({'what': what, 'nvertices': n, 'center': [cx, cy], 'radius': r, 'angle_deg': ang})
+    wd = tlc.workdir('c04regpoly')
+    path = os.path.join(wd, 'events.json')
+    with open(path, 'w') as f:
+        json.dump(events, f)
+    res = tlc.run('Trace_BBox', cfg='Trace_BBox.cfg', dump=True, env={'TRACE_FILE': path}, tag='c04regpoly')
+    ctx.tlc(res, 'Trace_BBox: boxes of regular polygons cover the extent of their vertices and are the smallest that do')
+    seen = 0
+    for st in res.states():
+        seen += 1
+        e, mt = events[st['i'] - 1], meta[st['i'] - 1]
+        ctx.case(('regpoly-box', mt['nvertices'], st['i']), True)
+        if st['verdict'] != 'ok':
+            ctx.violation(f"C04|regpoly|{st['verdict']}|{mt['what']}|{'odd' if mt['nvertices'] % 2 else 'even'}",
+                          f"regular polygon with {mt['nvertices']} vertices: {mt['what']} {e['res']} rejected by BBoxClosed!VCover: {st['verdict']}", dict(mt, extent_2p20=e['flt'], box=e['res']))
+    if seen != len(events):
+        raise tlc.TlcError('Trace_BBox verdict count mismatch (regular polygons)')
+    ctx.traces += seen
+    ctx.note('regular_polygon_boxes', seen)
+    tlc.cleanup(res.workdir)
+    tlc.cleanup(wd)
+
+
 def run(ctx):
     quick = ctx.tier == 'quick'
     rnd = random.Random(ctx.seed * 1000003 + 4)
@@ -95,6 +146,7 @@ def run(ctx):
         ctx.note(f'replayed_{fam}', n)
         tlc.cleanup(res.workdir)
     trace_validation(ctx, rnd)
+    regular_polygon_boxes(ctx, rnd)
     ctx.assumptions += ['extremes exactly on a pixel edge reached through a non-axis rotation may round either way',
                         'minimality is decided against the exact extent formula (squares compared), not against a second float computation']
 
